@@ -110,6 +110,17 @@ def handleTsMask (args : List String) : String :=
     | _, _, _ => "bad-op"
   | _ => "bad-op"
 
+/-- `cmask | bytes | text | byte ranges` → `CommentMasker::create_mask` after the tree walk: the
+tree-sitter mask, then the ignore-marker filter with the default `ignore_condition`, then
+`Mask::from_iter` -/
+def handleCMask (args : List String) : String :=
+  match splitAt "|" args with
+  | [[], bs, tx, rs] =>
+    match nats? bs, parseWsText tx, rs.mapM parseSpan with
+    | some b, some (src, isWs), some r => showSpans (commentMask ignoreCondition isWs b src r)
+    | _, _, _ => "bad-op"
+  | _ => "bad-op"
+
 /-- `mws | text | s:e …` → `push_allowed`* then `merge_whitespace_sep` -/
 def handleMws (args : List String) : String :=
   match splitAt "|" args with
